@@ -52,9 +52,10 @@ def check(spec, stats=None):
     rspec = spec["run"]
     prob = build(rspec["problem"])
     mode = rspec["jac"]
-    tr = execute(rspec, prob=prob, callback="passive")
+    tr = execute(rspec, prob=prob, callback="passive", jac_style=spec.get("jac_style", "fresh"))
     if tr.exc is not None:
         raise tr.exc
+    require(tr.user_array_modified == 0, "user-gradient-array-untouched", "the array returned by the user's gradient was modified by the library")
     s = scale_of(rspec, tr)
     if not np.isfinite(s) or s <= 0:
         raise Discard("scaler value not positive finite")
@@ -108,7 +109,7 @@ def strategy(draw):
     nr = draw(st.sampled_from([0, 0, 1, 2, 3]))
     restarts = [{"dit": draw(st.sampled_from([-2, 0, 1, 3, 10])), "dfun": draw(st.sampled_from([-5, 0, 2, 10, 100])), "maxcor": draw(st.sampled_from([None, None, 1, 4]))}
                 for _ in range(nr)]
-    return {"run": r, "restarts": restarts}
+    return {"run": r, "restarts": restarts, "jac_style": draw(st.sampled_from(["fresh", "fresh", "buffer"]))}
 
 
 def shard(ctx):
